@@ -63,6 +63,7 @@ def norm(s):
     s = re.sub(r'\d+', 'N', s)
     # type names out of diagnostics, so that one defect has one signature
     s = re.sub(r'[(\w-]*\b(Zahl|Zahlen|Kommazahl|Kommazahlen|Text|Buchstabe|Buchstaben|Wahrheitswert|Byte|VektorN|Paar|Kiste|Punkt)\b[)\w-]*( Listen?)?( Referenz)?', 'TYP', s)
+    s = re.sub(r'(TYP[ -]*)+', 'TYP ', s)
     return s
 
 
@@ -244,9 +245,12 @@ def sem_features(u):
     return sorted(f for f in gen_mod.unit_features(u) if f.startswith(SEM_FEATS))
 
 
-def sig_features(u):
+def sig_features(u, prog=None):
     """the features that go into a violation signature (the others are listed in meta.json of the replay directory)"""
-    return sorted(f for f in gen_mod.unit_features(u) if f.startswith(SIG_FEATS))
+    fs = [f for f in gen_mod.unit_features(u) if f.startswith(SIG_FEATS)]
+    if prog is not None and prog.layout == 'hidden' and u.sites['M']:
+        fs.append('caller-does-not-import-declaring-module')
+    return sorted(fs)
 
 
 def minimise(sc, name, prog, unit, target, budget=18):
@@ -442,7 +446,7 @@ def run(tier):
                     return item, None, e2, 0
                 if u is None:
                     return item, None, e2, -1
-                prelim = {'kind': e['kind'], 'construct': u.kind, 'features': ','.join(sig_features(u)), 'detail': e['detail']}
+                prelim = {'kind': e['kind'], 'construct': u.kind, 'features': ','.join(sig_features(u, p)), 'detail': e['detail']}
                 if chk.match_known(prelim) is not None:
                     return item, u, e2, 0      # a listed finding: no need to minimise
                 b = (e['kind'], e['detail'], u.kind)
@@ -473,7 +477,7 @@ def run(tier):
                     ev3, G3, M3 = evaluate_units(sc, '%s-f%d' % (p.pkey, u.uid), p, [mu])
                 if n == 0 or ev3['verdict'] != 'violation':
                     mu, ev3, G3, M3 = u, e2, G, M
-                sig = {'kind': ev3['kind'], 'construct': mu.kind, 'features': ','.join(sig_features(mu)), 'detail': ev3['detail']}
+                sig = {'kind': ev3['kind'], 'construct': mu.kind, 'features': ','.join(sig_features(mu, p)), 'detail': ev3['detail']}
                 report(chk, sig, G3, M3, ev3, p.meta([mu]))
             chk.extra['feature_coverage'] = dict(sorted(cover.items()))
             log("[C15] t=%.0fs confirmation and minimisation done" % (__import__('time').time() - chk.t0))
